@@ -678,6 +678,12 @@ class _NXP:
             out.append(x._pyvc_getitem(self._interp(), idx))
         return tuple(out)
 
+    def astype(self, x, dtype, **k):
+        self._note("astype")
+        out = SymBlock(x.shape, dtype, x.origin, "astype")
+        out.agg, out.aggpos = getattr(x, "agg", None), getattr(x, "aggpos", None)
+        return out
+
     def broadcast_shapes(self, *shapes):
         """numpy.broadcast_shapes: right-aligned; extents agree or one of them is 1"""
         self._note("broadcast_shapes")
